@@ -27,17 +27,19 @@ class VClock:
 
 @contextlib.contextmanager
 def patched_clock(clock):
-    import gradient_free_optimizers.search as m1
-    import gradient_free_optimizers._stop_run as m2
-    import gradient_free_optimizers._times_tracker as m3
-    old = [(m, m.time) for m in (m1, m2, m3)]
-    for m, _ in old:
+    """the wall clock of the library = the name `time` in whichever of its modules import it (search, _stop_run, _times_tracker on the
+    pinned tree; found by scanning, so that a module gaining or losing the import does not break the harness)"""
+    import sys, time as _time
+    import gradient_free_optimizers.search, gradient_free_optimizers._stop_run, gradient_free_optimizers._times_tracker   # noqa: F401
+    mods = [m for n, m in list(sys.modules.items()) if n.startswith("gradient_free_optimizers") and m is not None
+            and getattr(m, "time", None) is _time]
+    for m in mods:
         m.time = clock
     try:
         yield
     finally:
-        for m, t in old:
-            m.time = t
+        for m in mods:
+            m.time = _time
 
 
 class Objective:
